@@ -1,7 +1,7 @@
 SPECIFICATION Spec
 CONSTANTS
   Conns = {1, 2}
-  Calls = {1, 2, 3}
+  Calls = {1, 2}
   Kind <- MCKind
   AppIdsMax = 1
   Tokens = 0
@@ -9,5 +9,4 @@ CONSTANTS
   NoNilCheck = FALSE
   SwapStd = FALSE
 INVARIANTS TypeOK RolesAgree DispenseRouting OneImplPerDispense UnknownIsError IdsUnique DoneOnce
-PROPERTY Answered
 CHECK_DEADLOCK FALSE
